@@ -322,6 +322,18 @@ def gen_programs(tier):
     progs.append(("export function f(int p) -> int { for (int i = 0; i < p; ++i) { } return i; }", False, "loop variable used after loop"))
     progs.append(("export function f(int p) -> int { int x = 1; return p; } export function h(int q) -> int { int x = 2; return q; }", True, "two functions"))
     progs.append(("struct S { int x; int y; } export function f(int x) -> int { S s; return x; }", True, "struct field names independent"))
+    # a loop's condition / increment lies outside the body block
+    progs.append(("export function f(int p) -> int { do { int t = p; p = p + 1; } while (t < 3) return p; }", False, "do condition uses a body variable"))
+    progs.append(("export function f(int p) -> int { do { int t = p; p = p + 1; } while (p < 3) return t; }", False, "use after do"))
+    progs.append(("export function f(int p) -> int { while (t < 3) { int t = p; p = p + 1; } return p; }", False, "while condition uses a body variable"))
+    progs.append(("export function f(int p) -> int { for (int i = 0; i < p; i = i + t) { int t = 1; } return p; }", False, "for increment uses a body variable"))
+    progs.append(("export function f(int p) -> int { for (int i = 0; t < p; ++i) { int t = 1; } return p; }", False, "for condition uses a body variable"))
+    progs.append(("export function f(int p) -> int { do { int t = p; p = p + 1; } while (p < 3) { int t = 2; p = p + t; } return p; }", True, "name reused after do"))
+    progs.append(("export function f(int p) -> int { if (p > 0) { int t = 1; p = t; } else { p = t; } return p; }", False, "else block uses then block's variable"))
+    progs.append(("export function f(int p) -> int { { { int t = 1; } p = t; } return p; }", False, "use after nested block"))
+    progs.append(("export function f(int p) -> int { { int t = 1; { p = t; } } return p; }", True, "use in nested block"))
+    progs.append(("export function f(int p) -> int { { int t = p * 2; } return t; }", False, "first block of a function leaks"))
+    progs.append(("export function f(int p) -> int { { int t = p * 2; } int t = 7; return t; }", True, "redeclare after first block"))
     return progs
 
 
@@ -353,6 +365,9 @@ def _programs(inst):
 
 def replay(spec):
     inst = spec["inst"]
+    if "source" in inst and "fname" in inst:
+        from . import famcheck
+        return famcheck.replay(spec)
     if inst.get("part") == "program":
         got = compile_accepts(spec["source"])
         return None if got == spec["expect"] else dict(source=spec["source"], accepted=got)
@@ -394,7 +409,14 @@ def replay(spec):
     return None
 
 
+def _semantics(inst):
+    from . import famcheck
+    return famcheck.run_item(inst["item"], harness="C12")
+
+
 def run_instance(inst):
+    if inst["part"] == "semantics":
+        return _semantics(inst)
     r = _step(inst) if inst["part"] == "step" else _programs(inst)
     r["sample"] = dict(inst)
     r["key"] = repr(sorted((k, str(v)) for k, v in inst.items()))
@@ -413,13 +435,17 @@ def run(tier, seed, only=None):
                           "elements of an unbounded domain; harness B: templates x insertion point x name (concrete). Non-trivial = a query over the "
                           "symbolic names was discharged / a program was compiled")
     chk.bounds = {"A": f"chains of 1-3 tables with 0-2 names each ({len(SHAPES)} shapes), kinds: " + ", ".join(KINDS),
-                  "B": "13 insertion points x 7 names x {declaration, use} in a fixed skeleton (expected verdict from a reference scope walker) + 14 hand-listed shapes",
+                  "B": "13 insertion points x 7 names x {declaration, use} in a fixed skeleton (expected verdict from a reference scope walker) + 25 hand-listed shapes (loop conditions / increments vs body variables, uses after scopes)",
+                  "semantics": "programs that reuse a name in sibling scopes (with and without initialiser, across loop iterations, of different types, in caller and callee) on the real VM with symbolic inputs against the reference interpreter",
                   "outside": "a parameter whose name equals a global (left open by the statement); the induction over tree depth is a paper argument"}
     chk.assumptions = ["names are compared only by == / hash (dict lookups): checked by running with SymName keys",
                        "stub children stand for arbitrary sub-trees"]
     shapes = SHAPES if tier == "thorough" else SHAPES[:6]
     insts = [dict(part="step", kind=k, shape=list(s)) for k in KINDS for s in shapes]
     insts.append(dict(part="programs", tier=tier))
+    from ..gen import core1
+    from . import famcheck
+    insts += [dict(part="semantics", item=famcheck.pack(it)) for it in core1.scopes()]
     insts = [i for i in insts if only in (None, i["part"])]
     results = core.run_pool("vlib.harness.C12", "run_instance", insts, chunksize=2)
     for inst, r in zip(insts, results):
